@@ -20,7 +20,7 @@ func init() {
 	core.Register(&core.Check{
 		ID:    "C38",
 		Level: "exploration",
-		Rule: "documents {3 pages single content stream, 3 pages with two content streams per page, a page without content, pages whose content already has q..Q, two pages sharing one content stream and one resources dictionary} (unrotated) x kind {text, image, PDF} x {stamp, watermark} x position {tl, c, br} x scale {0.5 rel, 1 abs} x rotation {0, 45} x opacity {1, 0.5} x pages {all, 1, even, 1-2} (full product) and add -> add -> remove: HasWatermarks false before, true after adding, false after removal; after removal each page's decoded content equals the original up to whitespace and enclosing q/Q pairs, no Artifact/watermark XObject or ExtGState remains; " +
+		Rule: "documents {3 pages single content stream, 3 pages with two content streams per page, a page without content, pages whose content already has q..Q, two pages sharing one content stream and one resources dictionary, pages inheriting /Resources and /MediaBox from an intermediate node} (unrotated) x kind {text, image, PDF} x {stamp, watermark} x position {tl, c, br} x scale {0.5 rel, 1 abs} x rotation {0, 45} x opacity {1, 0.5} x pages {all, 1, even, 1-2} (full product) and add -> add -> remove: HasWatermarks false before, true after adding, false after removal; after removal each page's decoded content equals the original up to whitespace and enclosing q/Q pairs, no Artifact/watermark XObject or ExtGState remains; " +
 			"non-trivial = every case (each adds and removes real watermarks); cases where the last page is not watermarked exercise detection separately",
 		Run: runC38,
 	})
@@ -72,6 +72,7 @@ func runC38(r *core.R) {
 		}, docgen.SimpleOpts{}).Bytes(),
 		"empty-page": docgen.Simple([]docgen.PageSpec{{Marker: 1}, {Marker: 2, Contents: []string{}}, {Marker: 3}}, docgen.SimpleOpts{}).Bytes(),
 		"shared-stream": c38SharedStreamDoc(),
+		"inherited-resources": c38InheritedResourcesDoc(),
 		"existing-q": docgen.Simple([]docgen.PageSpec{
 			{Marker: 1, Contents: []string{"q " + docgen.MarkerContent(1) + " Q\n"}},
 			{Marker: 2, Contents: []string{"q 0.5 0 0 0.5 0 0 cm " + docgen.MarkerContent(2) + " Q q 1 0 0 1 5 5 cm Q\n"}},
@@ -274,6 +275,26 @@ func c38SharedStreamDoc() []byte {
 	p3 := d.Add(fmt.Sprintf("<</Type/Page/Parent %s/Resources %s/Contents %s>>", docgen.Ref(pages), docgen.Ref(res), docgen.Ref(own)))
 	d.Set(pages, fmt.Sprintf("<</Type/Pages/Kids[%s %s %s]/Count 3/MediaBox[0 0 595 842]>>", docgen.Ref(p1), docgen.Ref(p2), docgen.Ref(p3)))
 	d.Set(cat, fmt.Sprintf("<</Type/Catalog/Pages %s>>", docgen.Ref(pages)))
+	d.Root = cat
+	return d.Bytes()
+}
+
+// c38InheritedResourcesDoc: pages 1 and 2 sit under an intermediate /Pages node and have no /Resources and no
+// /MediaBox of their own (both inherited from that node; page 2 has two content streams); page 3 carries its own.
+func c38InheritedResourcesDoc() []byte {
+	d := docgen.New()
+	cat, root, node := d.Reserve(), d.Reserve(), d.Reserve()
+	font := d.Add("<</Type/Font/Subtype/Type1/BaseFont/Helvetica/Encoding/WinAnsiEncoding>>")
+	c1 := d.AddStream("<<>>", []byte(docgen.MarkerContent(1)))
+	c2a := d.AddStream("<<>>", []byte(docgen.MarkerContent(2)))
+	c2b := d.AddStream("<<>>", []byte("0 0 m 20 20 l S\n"))
+	c3 := d.AddStream("<<>>", []byte(docgen.MarkerContent(3)))
+	p1 := d.Add(fmt.Sprintf("<</Type/Page/Parent %s/Contents %s>>", docgen.Ref(node), docgen.Ref(c1)))
+	p2 := d.Add(fmt.Sprintf("<</Type/Page/Parent %s/Contents[%s %s]>>", docgen.Ref(node), docgen.Ref(c2a), docgen.Ref(c2b)))
+	p3 := d.Add(fmt.Sprintf("<</Type/Page/Parent %s/MediaBox[0 0 595 842]/Resources<</Font<</F1 %s>>>>/Contents %s>>", docgen.Ref(root), docgen.Ref(font), docgen.Ref(c3)))
+	d.Set(node, fmt.Sprintf("<</Type/Pages/Parent %s/Kids[%s %s]/Count 2/MediaBox[0 0 595 842]/Resources<</Font<</F1 %s>>>>>>", docgen.Ref(root), docgen.Ref(p1), docgen.Ref(p2), docgen.Ref(font)))
+	d.Set(root, fmt.Sprintf("<</Type/Pages/Kids[%s %s]/Count 3>>", docgen.Ref(node), docgen.Ref(p3)))
+	d.Set(cat, fmt.Sprintf("<</Type/Catalog/Pages %s>>", docgen.Ref(root)))
 	d.Root = cat
 	return d.Bytes()
 }
